@@ -445,6 +445,10 @@ Proof.
   - intros [[->|H] ->]; auto.
 Qed.
 
+Lemma expand_coords_data_exact {D} (coords : list idx) (data : list D) params bsh :
+  expand_coords_data coords data params bsh = expand_coords_data_Z coords data params bsh.
+Proof. reflexivity. Qed.
+
 Theorem expand_rows_spec {D} s T (rows : list (idx * D)) :
   BT s T -> shape_ok T -> Forall (fun r => in_range s (fst r)) rows -> NoDup (map fst rows) ->
   NoDup (map fst (expand_rows rows (bcast_params s T) T)) /\
@@ -452,7 +456,7 @@ Theorem expand_rows_spec {D} s T (rows : list (idx * D)) :
 Proof.
   intros HB Hok Hr Hnd. pose proof (BT_length _ _ HB) as Hlen.
   pose proof (bcast_params_length s T Hlen) as Hpl. set (p := bcast_params s T) in *.
-  unfold expand_rows, expand_coords_data. rewrite combine_fst_snd.
+  unfold expand_rows. rewrite expand_coords_data_exact. unfold expand_coords_data_Z. rewrite combine_fst_snd.
   destruct (first_true p) as [fd|] eqn:Hf.
   - set (pre := falses (firstn fd p) (firstn fd T)). set (post := falses (skipn (S fd) p) (skipn (S fd) T)).
     assert (Hsplit : falses p T = pre ++ post) by (apply falses_split; assumption).
